@@ -15,7 +15,10 @@ RULE = ("X25519: full cross product of a scalar alphabet (0,1,2,7,8,2^254,2^254+
         "with and without SSE, generic); oracle = RFC 7748 ladder on Python integers: return -1 iff the shared point is zero, output "
         "equal otherwise; scalarmult_base = X25519(n, 9). Key agreement: 24x24 key pairs: both directions equal the reference, "
         "box_beforenm = HSalsa20(q,0), xchacha beforenm = HChaCha20(q,0), kx session keys cross-equal and = BLAKE2b-512(q||cpk||spk), "
-        "low-order peer keys refused; ~120 (scalar, point) pairs constructed backwards so that the SHARED SECRET has exactly one non-zero byte at each "
+        "low-order peer keys refused; structured SECRET keys at the box/kx layer: the whole scalar alphabet x 9 peer public keys (5 honest keys with known "
+        "secret keys, u=2, a bit-255 encoding, low-order 0 and p-1): both beforenm variants, box_easy/open_easy (both variants, both parties) and kx "
+        "client/server session keys succeed iff the reference shared point is non-zero and equal HSalsa20/HChaCha20(q,0), secretbox_easy under that "
+        "key, BLAKE2b-512(q||cpk||spk); ~120 (scalar, point) pairs constructed backwards so that the SHARED SECRET has exactly one non-zero byte at each "
         "byte position / one non-zero word / is 1..4 or p-1..p-3 (must be returned, and accepted by box_beforenm); box/kx seed_keypair = documented hash of the seed for 6 seed patterns x lengths. Every "
         "(scalar, point, backend) is one distinct case compared with the reference. Prefix alphabet: the base point 9 with every value of the last byte, and 0, 1, p-1 and both order-8 u with 16 last bytes, x 4 scalars. Call forms with the result written over the point / the "
         "scalar. Field seam (harness/c05_fe.c): the tree's fe25519 code in both radices on (element, element, op) for ~100^2 (thorough 130^2) structured "
@@ -263,6 +266,54 @@ def _backend_worker(args):
             h = hashlib.blake2b(shared + pka + pkb, digest_size=64).digest()
             if rc != 0 or rs != 0 or rx.raw != tx2.raw or tx.raw != rx2.raw or rx.raw != h[:32] or tx.raw != h[32:]:
                 fails.append(("crypto_kx_session_keys/" + key, "not cross-equal / not BLAKE2b-512(q||client_pk||server_pk)"))
+    # structured SECRET keys at the box / kx layer: the whole scalar alphabet x a handful of peer public keys (honest keys with known secret
+    # keys, u = 2, a bit-255 encoding, two low-order points).  Every API must succeed exactly when the reference shared point is
+    # non-zero and derive from it: beforenm = HSalsa20 / HChaCha20(q, 0), box_easy = secretbox_easy under that key and opens on the other
+    # side (both directions, both cipher variants), kx session keys = BLAKE2b-512(q||client_pk||server_pk) in either role.
+    import ec25519 as ec
+    ULL = ctypes.c_ulonglong
+    honest = [(le(8 * k), ec.x25519(le(8 * k), le(9))) for k in (1, 2, 3, 12345, L - 1)]
+    peers = [(pk_, sk_) for sk_, pk_ in honest] + [(le(2), None), (le(P - 1), None), (le(0), None), (honest[1][1][:31] + bytes([honest[1][1][31] | 0x80]), None)]
+    pidx = {p_: j for j, p_ in enumerate(Pts)}; j9 = pidx[le(9)]
+    msg = pat("C", 33, 41); nonce = pat("R1", 24, 42); cb = pylib.buf(33 + 16); cw = pylib.buf(33 + 16); mb = pylib.buf(33)
+    BOXV = [("crypto_box", lib.crypto_box_beforenm, lib.crypto_box_easy, lib.crypto_box_open_easy, lib.crypto_secretbox_easy, vref.ref_hsalsa20),
+            ("crypto_box_xchacha", lib.crypto_box_curve25519xchacha20poly1305_beforenm, lib.crypto_box_curve25519xchacha20poly1305_easy,
+             lib.crypto_box_curve25519xchacha20poly1305_open_easy, lib.crypto_secretbox_xchacha20poly1305_easy, vref.ref_hchacha20)]
+    for i, s in enumerate(S):
+        pka = ref[i][j9]                                   # the public key that belongs to the structured secret key (reference)
+        for pkb, skb in peers:
+            want = ref[i][pidx[pkb]] if pkb in pidx else ec.x25519(s, pkb)
+            key = "%s/sk=%s/peer=%s" % (tag, s.hex(), pkb.hex())
+            for name, bnm, easy, open_easy, sbx_easy, hfn in BOXV:
+                n += 1
+                ctypes.memset(k1, 0xA5, 32); r = bnm(k1, pkb, s)
+                if want == bytes(32):
+                    if r == 0: fails.append(("%s_beforenm-structured-sk/%s" % (name, key), "shared point is zero but the call succeeded"))
+                    if easy(cb, msg, ULL(33), nonce, pkb, s) == 0: fails.append(("%s_easy-structured-sk/%s" % (name, key), "shared point is zero but the call succeeded"))
+                    continue
+                hfn(exp, zero16, want, None)
+                if r != 0 or k1.raw != exp.raw:
+                    fails.append(("%s_beforenm-structured-sk/%s" % (name, key), "ret %d key %s, want 0 and %s (derived from the RFC 7748 shared point %s)" % (r, k1.raw.hex(), exp.raw.hex(), want.hex()))); continue
+                sbx_easy(cw, msg, ULL(33), nonce, exp)
+                r = easy(cb, msg, ULL(33), nonce, pkb, s); n += 1
+                if r != 0 or cb.raw != cw.raw: fails.append(("%s_easy-structured-sk/%s" % (name, key), "ret %d; not secretbox_easy under the documented key" % r))
+                r = open_easy(mb, cw, ULL(33 + 16), nonce, pkb, s); n += 1
+                if r != 0 or mb.raw != msg: fails.append(("%s_open_easy-structured-sk/%s" % (name, key), "ret %d: a box made for this key pair does not open" % r))
+                if skb is not None and pka != bytes(32):   # the peer's side, with the public key of the structured secret key
+                    r = easy(cb, msg, ULL(33), nonce, pka, skb); n += 1
+                    if r != 0 or cb.raw != cw.raw: fails.append(("%s_easy-structured-sk-peer/%s" % (name, key), "ret %d; the two parties derive different keys" % r))
+                    ctypes.memset(mb, 0, 33); r2 = open_easy(mb, cb, ULL(33 + 16), nonce, pkb, s)
+                    if r == 0 and (r2 != 0 or mb.raw != msg): fails.append(("%s_open_easy-structured-sk-peer/%s" % (name, key), "ret %d: the box sent by the peer does not open" % r2))
+            if pka == bytes(32): continue
+            n += 2
+            rc = lib.crypto_kx_client_session_keys(rx, tx, pka, s, pkb); h = hashlib.blake2b(want + pka + pkb, digest_size=64).digest()
+            if (want == bytes(32) and rc == 0) or (want != bytes(32) and (rc != 0 or rx.raw != h[:32] or tx.raw != h[32:])):
+                fails.append(("crypto_kx_client_session_keys-structured-sk/" + key, "ret %d; must succeed iff the shared point is non-zero with keys BLAKE2b-512(q||client_pk||server_pk)" % rc))
+            rs = lib.crypto_kx_server_session_keys(rx2, tx2, pka, s, pkb); h2 = hashlib.blake2b(want + pkb + pka, digest_size=64).digest()
+            if (want == bytes(32) and rs == 0) or (want != bytes(32) and (rs != 0 or tx2.raw != h2[:32] or rx2.raw != h2[32:])):
+                fails.append(("crypto_kx_server_session_keys-structured-sk/" + key, "ret %d; must succeed iff the shared point is non-zero with keys BLAKE2b-512(q||client_pk||server_pk)" % rs))
+        if len(fails) > 40:
+            break
     # peer keys in other encodings of the same point (bit 255 set; u + p where u < 19 does not occur for honest keys): RFC 7748 ignores the bit, so
     # every key-agreement API must succeed and derive from the same shared point; kx hashes the public keys as given
     import ec25519 as ec
@@ -448,6 +499,6 @@ def main(tier):
                    "crypto_scalarmult n=%s p=%s (low order) -> must return -1" % (S[3].hex(), Pts[0].hex()),
                    "crypto_scalarmult n=%s p=%s (p+2 with bit 255 set: reduced to 2, top bit ignored) -> %s" % (S[20].hex(), le((P + 2) | 1 << 255).hex(), ec.x25519(S[20], le((P + 2) | 1 << 255)).hex())]
     cov = {"evaluations": total, "distinct_nontrivial": total, "rule": RULE, "exhaustive": True, "scalars": len(S), "points": len(Pts),
-           "reference_zero_results": zero, "key_pairs": nk, "structured_output_cases": len(struct), "dense_differential_cases": dense_n, "field_seam_cases": fe_n, "backends": tags}
+           "reference_zero_results": zero, "key_pairs": nk, "structured_output_cases": len(struct), "box_kx_structured_secret_key_cases": len(S) * 9, "dense_differential_cases": dense_n, "field_seam_cases": fe_n, "backends": tags}
     common.finish("C05", tier, "exploration", res, cov,
                   ["values outside the structured alphabets are not covered", "reference: ref/ec25519.py RFC 7748 ladder"], t0)
